@@ -2,6 +2,7 @@ import GS.Model.Requestor
 import GSProofs.Lemmas.RequestorLocal
 import GSProofs.C01
 import GSProofs.C19
+import GS.Model.Responder
 /-!
 # C24 — Requestor avoids unnecessary traffic
 
@@ -131,6 +132,138 @@ theorem no_resend (h : List GS.LinkTrack.Op) (hwf : GS.LinkTrack.WF h) (r : GS.L
   have := h2.1 hs1
   subst hs2
   exact ⟨rfl, this.2.1, this.2.2 r rfl⟩
+
+/-! ## sentences 2 and 3 joined: the responder's block attachment under the requested skip value
+
+`Responder.attach skip excluded i seen es` is the block attachment of `respondSpec` (to which the
+operational responder is proved equal for every batching: `C03.refines`): entry number `i+1, i+2, …`
+of the responder's own traversal `es` carries its block iff present ∧ index > skip ∧ not excluded ∧
+not traversed earlier by this request. -/
+
+open GS.Responder in
+theorem attach_append (skip : Int) (ex : GS.Responder.Cid → Bool) (es1 : List (GS.Responder.Cid × Bool)) :
+    ∀ (i : Nat) (seen : List GS.Responder.Cid) (es2 : List (GS.Responder.Cid × Bool)),
+    attach skip ex i seen (es1 ++ es2) =
+      attach skip ex i seen es1 ++
+      attach skip ex (i + es1.length) (es1.foldl (fun sn e => if e.2 then e.1 :: sn else sn) seen) es2 := by
+  induction es1 with
+  | nil => intro i seen es2; simp [attach]
+  | cons e rest ih =>
+    intro i seen es2
+    obtain ⟨c, pres⟩ := e
+    simp only [List.cons_append, attach, List.length_cons, List.foldl_cons]
+    rw [ih]
+    have : i + 1 + rest.length = i + (rest.length + 1) := by omega
+    rw [this]
+
+open GS.Responder in
+/-- inside the skip window no block is attached -/
+theorem attach_window (skip : Int) (ex : GS.Responder.Cid → Bool) (es : List (GS.Responder.Cid × Bool)) :
+    ∀ (i : Nat) (seen : List GS.Responder.Cid), ((i + es.length : Nat) : Int) ≤ skip →
+    ∀ it ∈ attach skip ex i seen es, it.block = false := by
+  induction es with
+  | nil => intro i seen _ it hit; simp [attach] at hit
+  | cons e rest ih =>
+    intro i seen hle it hit
+    obtain ⟨c, pres⟩ := e
+    simp only [attach, List.mem_cons] at hit
+    simp only [List.length_cons] at hle
+    rcases hit with rfl | hit
+    · have : ¬ (skip < ((i + 1 : Nat) : Int)) := by omega
+      simp only [decide_eq_false this, Bool.and_false, Bool.false_and]
+    · exact ih (i + 1) _ (by omega) it hit
+
+open GS.Responder in
+/-- an attached block was not traversed earlier by the request -/
+theorem attach_fresh (skip : Int) (ex : GS.Responder.Cid → Bool) (es : List (GS.Responder.Cid × Bool)) :
+    ∀ (i : Nat) (seen : List GS.Responder.Cid), ∀ it ∈ attach skip ex i seen es, it.block = true →
+      seen.contains it.cid = false := by
+  induction es with
+  | nil => intro i seen it hit; simp [attach] at hit
+  | cons e rest ih =>
+    intro i seen it hit hb
+    obtain ⟨c, pres⟩ := e
+    simp only [attach, List.mem_cons] at hit
+    rcases hit with rfl | hit
+    · simp only [Bool.and_eq_true, Bool.not_eq_true'] at hb
+      exact hb.2
+    · have := ih (i + 1) _ it hit hb
+      cases pres with
+      | true =>
+        simp only [if_true, List.contains_cons, Bool.or_eq_false_iff] at this
+        exact this.2
+      | false => simpa using this
+
+open GS.Responder in
+/-- no block is attached twice -/
+theorem attach_nodup (skip : Int) (ex : GS.Responder.Cid → Bool) (es : List (GS.Responder.Cid × Bool)) :
+    ∀ (i : Nat) (seen : List GS.Responder.Cid),
+    (((attach skip ex i seen es).filter (fun it => it.block)).map (fun it => it.cid)).Nodup := by
+  induction es with
+  | nil => intro i seen; simp [attach]
+  | cons e rest ih =>
+    intro i seen
+    obtain ⟨c, pres⟩ := e
+    simp only [attach]
+    by_cases hb : (pres && decide (skip < ((i + 1 : Nat) : Int)) && !ex c && !seen.contains c) = true
+    · simp only [List.filter_cons, hb, if_true, List.map_cons, List.nodup_cons]
+      refine ⟨?_, ih (i + 1) _⟩
+      intro hmem
+      simp only [List.mem_map, List.mem_filter] at hmem
+      obtain ⟨it, ⟨hit, hbi⟩, hc⟩ := hmem
+      have hp : pres = true := by
+        simp only [Bool.and_eq_true] at hb; exact hb.1.1.1
+      have := attach_fresh skip ex rest (i + 1) _ it hit hbi
+      rw [hp, hc] at this
+      simp at this
+    · simp only [List.filter_cons, hb]
+      exact ih (i + 1) _
+
+open GS.Responder in
+theorem foldl_seen_contains (pre : List (GS.Responder.Cid × Bool)) (hp : ∀ e ∈ pre, e.2 = true) (seen : List GS.Responder.Cid) (c : GS.Responder.Cid)
+    (hc : c ∈ pre.map (fun e => e.1) ∨ seen.contains c = true) :
+    (pre.foldl (fun sn e => if e.2 then e.1 :: sn else sn) seen).contains c = true := by
+  induction pre generalizing seen with
+  | nil =>
+    rcases hc with h | h
+    · simp at h
+    · simpa using h
+  | cons e rest ih =>
+    simp only [List.foldl_cons]
+    have he : e.2 = true := hp e (List.mem_cons_self ..)
+    simp only [he, if_true]
+    apply ih (fun e' he' => hp e' (List.mem_cons_of_mem _ he'))
+    rcases hc with h | h
+    · simp only [List.map_cons, List.mem_cons] at h
+      rcases h with rfl | h
+      · right; simp
+      · left; exact h
+    · right
+      simp only [List.contains_cons, h, Bool.or_true]
+
+open GS.Responder in
+/-- **C24, sentences 2 and 3 for an honest prefix.**  Suppose the first `N` links of the responder's
+    own traversal are present (the responder holds every block of the prefix the requestor loaded
+    locally, so its traversal starts with exactly that prefix) and the request asks to skip at least
+    `N` blocks (`C24.skip`: the requestor asks for `max(user value, N)`).  Then, in the response
+    `respondSpec` (= the real responder's output for every batching, `C03.refines`):
+    no block of that prefix is transmitted, and no block is transmitted twice. -/
+theorem honest_prefix_no_resend (t : GS.Responder.LT) (has : GS.Responder.Cid → Bool) (w : Want) (inUse : GS.Responder.Cid → Bool)
+    (pre post : List (GS.Responder.Cid × Bool)) (hes : t.visit has = pre ++ post)
+    (hpre : ∀ e ∈ pre, e.2 = true) (hskip : (pre.length : Int) ≤ w.skip) :
+    (∀ it ∈ (respondSpec t has w inUse).1, it.block = true → it.cid ∉ pre.map (fun e => e.1)) ∧
+    (((respondSpec t has w inUse).1.filter (fun it => it.block)).map (fun it => it.cid)).Nodup := by
+  refine ⟨?_, attach_nodup _ _ _ 0 []⟩
+  intro it hit hb hmem
+  simp only [respondSpec, hes] at hit
+  rw [attach_append] at hit
+  simp only [List.mem_append] at hit
+  rcases hit with hit | hit
+  · have := attach_window w.skip _ pre 0 [] (by simpa using hskip) it hit
+    rw [this] at hb; cases hb
+  · have hf := attach_fresh w.skip _ post _ _ it hit hb
+    have := foldl_seen_contains pre hpre [] it.cid (Or.inl hmem)
+    rw [this] at hf; cases hf
 
 /-- **Known finding `skip-prefix-mismatch-resend`** (C24 read strictly: "the responder never
     transmits a block the requestor asked it to skip").  The requestor loads 3, 2, 0 from its own
